@@ -7,7 +7,7 @@ from fractions import Fraction
 from . import refinterp as I
 from . import refnum as R
 from . import refparse as P
-from .common import REPO, WORK, Stats, Violation, hx, pmap, shim
+from .common import REPO, WORK, Stats, Violation, hx, pmap, shim, finish
 
 A20 = ['형', '형.', '형..', '항.', '항...', '하앙...', '핫....', '흣...', '흐읏.', '흡...', '흐읍...', '흑', '흑.', '흑..',
        '흑....', '형.♥', '항...♥', '형..?♥', '항...♥!', '형.♡']
@@ -436,7 +436,7 @@ def run_c01(tier):
         'samples': [{'prog': '형.. 흑. 항 ', 'stdin': ''}, {'prog': '흐읏.?♥', 'state': 'stack 3 = [1, -3/2, NaN]'},
                     {'prog': 'examples/a_plus_b', 'stdin': '1 7\n'}],
     }
-    return cov, st.violations
+    return finish(cov, st)
 
 
 def replay(case):
